@@ -64,10 +64,14 @@ pub enum Crit {
   UnknownPresent,
   /// `["b64","exp"]` — a violation behind a harmless first entry
   B64AndExp,
+  /// `["B64"]` with a member `"B64":true` — differs from the implemented extension name only in letter case
+  UpperB64Present,
+  /// `["b64","B64"]` with a member `"B64":true`
+  B64AndUpperB64,
 }
 
 const B64S: [B64; 3] = [B64::Absent, B64::True, B64::False];
-const CRITS: [Crit; 9] = [
+const CRITS: [Crit; 11] = [
   Crit::Absent,
   Crit::Empty,
   Crit::B64,
@@ -77,6 +81,8 @@ const CRITS: [Crit; 9] = [
   Crit::UnknownAbsent,
   Crit::UnknownPresent,
   Crit::B64AndExp,
+  Crit::UpperB64Present,
+  Crit::B64AndUpperB64,
 ];
 
 /// One header of a row.
@@ -196,12 +202,17 @@ impl Hdr {
       Crit::Exp => Some(json!(["exp"])),
       Crit::UnknownAbsent | Crit::UnknownPresent => Some(json!(["x-unknown"])),
       Crit::B64AndExp => Some(json!(["b64", "exp"])),
+      Crit::UpperB64Present => Some(json!(["B64"])),
+      Crit::B64AndUpperB64 => Some(json!(["b64", "B64"])),
     };
     if let Some(c) = crit {
       m.push(("crit".into(), c));
     }
     if self.crit == Crit::UnknownPresent {
       m.push(("x-unknown".into(), json!(1)));
+    }
+    if matches!(self.crit, Crit::UpperB64Present | Crit::B64AndUpperB64) {
+      m.push(("B64".into(), json!(true)));
     }
     match shared {
       Shared::None => {}
